@@ -24,6 +24,7 @@ func c08Gen(rt *rapid.T) wProg {
 	p := wProg{}
 	p.Cfg = wConfig{Users: 4, Root: gPct(rt, 40)}
 	p.Sess = append([]int(nil), gPick(rt, [][]int{{0, 1, 2}, {0, 0, 1, 2}, {0, 1, 1, 2}, {0, 1, 2, 3}}, "layout")...)
+	gGrpc(rt, &p, 15)
 	isChan := gPct(rt, 30)
 	kind := "new"
 	if isChan {
@@ -558,6 +559,15 @@ func (o *c08Obs) After(w *wWorld, st *wStep) *kit.Viol {
 			o.changes["del-"+st.Op.A] = true
 		case "sub", "leave":
 			o.changes["subscription"] = true
+		}
+	}
+	if st.Fired && st.Op.K == "set" && st.Op.T == "me" && !st.Skipped {
+		// a request cut short by a store failure may have stored its first write (listed finding after-fault:set-desc)
+		if strings.Contains(st.Req, `"trusted"`) {
+			o.changes["me-trusted"] = true
+		}
+		if strings.Contains(st.Req, `"public"`) {
+			o.changes["me-public"] = true
 		}
 	}
 	// (3) a failed request changes nothing
